@@ -14,7 +14,7 @@
 From Coq Require Import ZArith List Bool.
 From Coq.Strings Require Import Byte String.
 From TS Require Import Bytes State Prog Ops Interp SigSpec MultisigPure MultisigLink BuilderSpec TapeSteps
-  Builders BuilderSpecC13 TablesCheck.
+  Builders BuilderSpecC13 BuilderSpecC13b TablesCheck.
 Import ListNotations.
 Local Open Scope nat_scope.
 
@@ -161,6 +161,83 @@ Example C13_multisig_instance :
     = Some false.
 Proof. cbv zeta. repeat split; vm_compute; reflexivity. Qed.
 
+(* ---------- D. script-hash lock and graftroot lock (proofs/BuilderSpecC13b.v) ----------
+   [verdict_after post o] = the verdict rule of run_auth_scripts applied to the outcome o of the evaluated script:
+   True iff it ends normally with exactly [ff] on the stack. *)
+
+(* a script that does not hash to the commitment is refused, and nothing of it starts: the heap holds exactly the
+   two top-level tapes, the log is empty *)
+Theorem C13_scripthash_other_script_never_starts :
+  forall orc cfg f (script h : bytes) n d vals,
+  0 < List.length script < 256 -> List.length script <= c_max_item_size cfg ->
+  List.length h < 256 -> List.length h <= c_max_item_size cfg -> 3 <= c_max_items cfg ->
+  orc PShake256 [script; [n]] = OOk [d] -> d <> h ->
+  exists st,
+    run_auth_scripts orc cfg (S (S (S (S (S (S f)))))) [sh_witness script; scripthash_lock h n] vals
+      = AuthVerdict false st /\
+  st_tapes st = sh_tapes script h n /\
+  st_log st = st_log (init_state cfg (sh_witness script) vals) /\ st_log st = [].
+Proof. exact scripthash_wrong_script. Qed.
+
+(* the committed script runs, from the empty stack, as a fresh tape object (call count 1), and its verdict is the verdict *)
+Theorem C13_scripthash_committed_script_runs :
+  forall orc cfg f (script h : bytes) n vals,
+  0 < List.length script < 256 -> List.length script <= c_max_item_size cfg ->
+  List.length h < 256 -> List.length h <= c_max_item_size cfg -> 3 <= c_max_items cfg ->
+  no_eval_ban cfg -> (0 < c_limit cfg)%Z ->
+  orc PShake256 [script; [n]] = OOk [h] ->
+  run_auth_scripts orc cfg (S (S (S (S (S (S f)))))) [sh_witness script; scripthash_lock h n] vals =
+    verdict_after (eval_cache cfg) (run_tape orc cfg (S f) 2 0 (sh_eval_state cfg script h n vals)).
+Proof. exact scripthash_committed_script. Qed.
+
+(* graftroot, key path: the same condition as the single-signature lock *)
+Theorem C13_graftroot_key_path_exact :
+  forall orc cfg f (pk sig : bytes) fl vals,
+  65 <= c_max_item_size cfg -> 3 <= c_max_items cfg ->
+  List.length pk = 32 -> (List.length sig = 64 \/ List.length sig = 65) ->
+  match run_auth_scripts orc cfg (S (S (S (S (S (S f))))))
+          [graftroot_key_witness sig; graftroot_lock pk fl] vals with
+  | AuthVerdict b _ => b = true <-> sig_accepts orc cfg pk sig (b2z fl) (init_cache cfg vals)
+  | AuthFuel => False
+  | AuthUnmod _ => exists m l, msg_of (sig_flag sig) (init_cache cfg vals) = Some m /\
+                               orc PVerify [pk; m; firstn 64 sig] = OOk l /\ List.length l <> 1
+  end.
+Proof. exact graftroot_key_exact. Qed.
+
+(* graftroot, surrogate path: a surrogate signed by the lock's key runs from the empty stack and decides ... *)
+Theorem C13_graftroot_signed_surrogate_runs :
+  forall orc cfg f (pk ssig surrogate : bytes) fl vals,
+  65 <= c_max_item_size cfg -> 4 <= c_max_items cfg ->
+  List.length pk = 32 -> List.length ssig = 64 ->
+  0 < List.length surrogate < 256 -> List.length surrogate <= c_max_item_size cfg ->
+  no_eval_ban cfg -> (0 < c_limit cfg)%Z ->
+  surrogate_verifies orc pk surrogate ssig ->
+  run_auth_scripts orc cfg (S (S (S (S (S (S (S (S (S (S f))))))))))
+    [graftroot_surrogate_witness ssig surrogate; graftroot_lock pk fl] vals =
+    verdict_after (fun s => prop_cache (eval_cache cfg s))
+      (run_tape orc cfg (S f) 3 0 (gr_eval_state cfg pk fl ssig surrogate vals)).
+Proof. exact graftroot_surrogate_runs. Qed.
+
+(* ... and one that is not (wrong key, altered script, oracle error) never starts *)
+Theorem C13_graftroot_unsigned_surrogate_never_starts :
+  forall orc cfg f (pk ssig surrogate : bytes) fl vals,
+  65 <= c_max_item_size cfg -> 4 <= c_max_items cfg ->
+  List.length pk = 32 -> List.length ssig = 64 ->
+  0 < List.length surrogate < 256 -> List.length surrogate <= c_max_item_size cfg ->
+  no_eval_ban cfg -> (0 < c_limit cfg)%Z ->
+  ~ surrogate_verifies orc pk surrogate ssig ->
+  exists st,
+    run_auth_scripts orc cfg (S (S (S (S (S (S (S (S (S (S f))))))))))
+      [graftroot_surrogate_witness ssig surrogate; graftroot_lock pk fl] vals = AuthVerdict false st /\
+    st_tapes st = gr_tapes (graftroot_surrogate_witness ssig surrogate) pk fl surr_arm /\
+    st_log st = [].
+Proof. exact graftroot_surrogate_rejected. Qed.
+
+Print Assumptions C13_scripthash_other_script_never_starts.
+Print Assumptions C13_scripthash_committed_script_runs.
+Print Assumptions C13_graftroot_key_path_exact.
+Print Assumptions C13_graftroot_signed_surrogate_runs.
+Print Assumptions C13_graftroot_unsigned_surrogate_never_starts.
 Print Assumptions C13_single_sig_bytes.
 Print Assumptions C13_single_sig2_bytes.
 Print Assumptions C13_multisig_bytes.
